@@ -42,6 +42,7 @@ type loopInfo struct {
 }
 
 type FnRun struct {
+	pendingRet map[string]Val // results about to be returned, while deferred calls run
 	ex       *Exec
 	fn       *ssa.Function
 	key      string
@@ -858,6 +859,33 @@ func (fr *FnRun) runRest(st *State, b *ssa.BasicBlock, rest []ssa.Instruction, d
 			fr.oblige(st, "panic", fmt.Sprint(fr.ord[in]), tFalse, nil, "explicit panic is unreachable")
 			return
 		case *ssa.RunDefers:
+			// the results about to be returned (unnamed results are already computed; named ones are
+			// read after the deferred calls and are visible as locals)
+			if b.Parent() == fr.fn {
+				fr.pendingRet = map[string]Val{}
+				for _, nx := range rest[i+1:] {
+					if ret, ok := nx.(*ssa.Return); ok {
+						for ri, rv := range ret.Results {
+							func() {
+								defer func() { recover() }()
+								var v Val
+								if u, ok := rv.(*ssa.UnOp); ok && u.Op == token.MUL {
+									// the result cell the builder introduces when a function defers
+									v = fr.ex.load(st, fr.ptr(st, u.X))
+								} else {
+									v = fr.value(st, rv)
+								}
+								if fr.ctr != nil && ri < len(fr.ctr.Results) {
+									fr.pendingRet[fr.ctr.Results[ri]] = v
+								}
+								if len(ret.Results) == 1 {
+									fr.pendingRet["result"] = v
+								}
+							}()
+						}
+					}
+				}
+			}
 			fr.runDefers(st, depth, func(st2 *State) {
 				fr.runRest(st2, b, rest[i+1:], depth, k)
 			})
